@@ -368,6 +368,8 @@ def judge_history(h, want, ignore_envelope=False):
             specs[f[1]] = sp
             del_processed.pop(f[1], None)
             fin_removed.discard(f[1])
+            # a new object under an old name: not one of the ClusterCIDRs known when the controller started (C09)
+            boot_mapped.discard(f[1])
             # P9: created while an existing node holds a CIDR inside it
             for n, nd in api_nodes.items():
                 for c in nd["cidrs"]:
@@ -394,6 +396,7 @@ def judge_history(h, want, ignore_envelope=False):
         if kind == "nodeLabels":
             # a label edit can also make a node match a different ClusterCIDR on re-sync
             clauses.add("label-edit")
+            clauses.add("label-edit@" + f[1])
         if kind in ("nodeAdd", "nodeSetCIDRs") and f[1] in api_nodes:
             mine = [ptok(c) for c in api_nodes[f[1]]["cidrs"] if not c.startswith("?")]
             for n2, nd2 in api_nodes.items():
@@ -409,6 +412,7 @@ def judge_history(h, want, ignore_envelope=False):
             clauses.add("P18-node-created-with-cidrs")
         if kind == "deliverNode" and f[2] == "1" and f[1] not in api_nodes:
             clauses.add("P19-tombstone")
+            clauses.add("P19-tombstone@" + f[1])
         if kind == "ccDel" and f[1] in before["api_ccs"] and FIN not in before["api_ccs"][f[1]]["fins"]:
             # deleted while our finalizer is not (yet) on it: nothing holds the object back
             clauses.add("P15-deleted-before-finalizer")
@@ -419,6 +423,7 @@ def judge_history(h, want, ignore_envelope=False):
         for p in ob["patches"]:
             if p["outcome"] == "lost":
                 clauses.add("P13-lost-node-write")
+                clauses.add("P13-lost-node-write@" + p["node"])
         # dual-stack node CIDRs that an entry can take only in part (P17b) — any node whose cidrs are not all inside one ClusterCIDR's ranges
         if kind in ("nodeAdd", "nodeSetCIDRs"):
             cs = f[3] if kind == "nodeAdd" else f[2]
@@ -500,6 +505,17 @@ def judge_history(h, want, ignore_envelope=False):
         # ---------------- C08: processing a node that already has pod CIDRs
         if kind == "procNode" and f[1] in before["view_nodes"] and before["view_nodes"][f[1]]["cidrs"] and not before["view_nodes"][f[1]]["deleting"] and ob["res"] != "none":
             check_resync(i, op, f, ob, before, specs, bad)
+
+        # C08, cache catching up mid-item: the item started on a cached node without pod CIDRs, the second read shows them
+        if kind == "procNode" and len(f) > 2 and f[2] == "1" and ob["res"] not in ("none", "panic"):
+            vb, ab = before["view_nodes"].get(f[1]), before["api_nodes"].get(f[1])
+            if vb is not None and not vb["cidrs"] and not vb["deleting"] and ab is not None and ab["cidrs"] and not any(c.startswith("?") for c in ab["cidrs"]):
+                own = [ptok(c) for c in ab["cidrs"]]
+                ub = set(all_used(before["snap"], specs))
+                ua = set(all_used(ob["snap"], specs))
+                for (n, b) in ua - ub:
+                    if not any(overlap(b, c) for c in own):
+                        bad("C08", i, f"node {f[1]} turned out to have pod CIDRs {ab['cidrs']} when re-read, yet block {fmt(b)} of {n} stays reserved after its item")
 
         # ---------------- C06
         if kind == "procCC":
@@ -637,6 +653,7 @@ def check_patches(i, op, f, ob, before, specs, svcs, boot_mapped, holders_shown,
         for g in gained:
             if del_processed.get(g):
                 bad("C06", i, f"node {node} was assigned from ClusterCIDR {g} after its deletion request had been processed", ("P15-foreign-finalizer",))
+                bad("C02", i, f"node {node} was assigned from ClusterCIDR {g} although the controller had already processed a deletion request for it", ("P15-foreign-finalizer",))
         # C01: overlap with another holder
         if p["outcome"] in ("ok", "lost"):
             for other, nd in ob["api_nodes"].items():
@@ -698,6 +715,8 @@ def check_decision(i, op, f, ob, before, specs, bad, clauses):
             return  # the node vanished from the cache in the middle of the item: not a refusal
         if with_room and ob["res"] != "ok":
             bad("C05", i, f"node {node} (labels {labels}) refused although eligible ClusterCIDR {with_room[0][0]['name']} has room in every family", ("P14-sentinel",))
+            # C07: the first ClusterCIDR with room in the documented order serves the node — here none did
+            bad("C07", i, f"node {node} (labels {labels}) not served although ClusterCIDR {with_room[0][0]['name']} is eligible and has room (no ClusterCIDR of the documented order was used)", ("P14-sentinel",))
         if not with_room:
             if ob["res"] != "err":
                 bad("C05", i, f"refusal of node {node} not reported as an error (res={ob['res']})", ("P14-sentinel",))
@@ -772,7 +791,7 @@ def check_cc_item(i, op, f, ob, before, specs, bad, clauses, del_processed, fin_
                                 bad("C06", i, f"finalizer of {name} removed while node {n} is still associated with it")
                             elif any(overlap(c, b) for b in used_blocks(e, sp)) and not recorded_elsewhere(c, name, before["snap"], specs):
                                 bad("C06", i, f"finalizer of {name} removed while existing node {n} holds {t}, reserved only there",
-                                    ("P11-overlapping-clustercidrs", "label-edit", "P17b-multi-cidr-preset", "P19-tombstone", "P13-lost-node-write",
+                                    ("P11-overlapping-clustercidrs", "label-edit@" + n, "P17b-multi-cidr-preset", "P19-tombstone@" + n, "P13-lost-node-write@" + n,
                                      "P10-holder-not-selected", "preexisting-overlap"))
             fin_removed.add(name)
 
